@@ -36,6 +36,21 @@ func isDU(form string) bool { return strings.HasPrefix(form, "du") }
 // IsICMPError reports whether the form is an ICMP error quoting the probe.
 func IsICMPError(form string) bool { return isTE(form) || isDU(form) }
 
+// WithIPOptions returns the same IPv4 datagram with options in its own header (IHL words, 6..15: a router-alert option,
+// then no-operation padding): everything after the header moves by 4*(words-5) bytes.
+func WithIPOptions(v4 []byte, words int) ([]byte, error) {
+	q, err := refcodec.Parse(v4)
+	if err != nil || q.V != 4 || q.IHL != 20 || words < 6 || words > 15 {
+		return nil, fmt.Errorf("ip options: an IPv4 datagram without options, 6..15 words")
+	}
+	opts := make([]byte, words*4-20)
+	for i := range opts {
+		opts[i] = 1
+	}
+	opts[0], opts[1], opts[2], opts[3] = 0x94, 4, 0, 0
+	return refcodec.IPv4(q.Src, q.Dst, q.Proto, refcodec.IPv4Opts{TTL: q.TTL, ID: q.IPID, TOS: v4[1], FragWord: binary.BigEndian.Uint16(v4[6:]), Options: opts}, append([]byte{}, v4[20:]...)), nil
+}
+
 // Build constructs the reply of the given form to probe p, sent by from to the probe's source.
 func Build(form string, p *refcodec.Packet, from netip.Addr, c BuildCtx) ([]byte, error) {
 	if inner, ok := strings.CutPrefix(form, "v6mapped:"); ok {
